@@ -153,6 +153,9 @@ class Tree:
             tree = ast.parse(source, filename=relpath)
         except SyntaxError as exc:
             raise AnalysisError(f"cannot parse {relpath}: {exc}") from exc
+        from .normalize import normalize
+
+        tree = normalize(tree)  # one spelling per idiom (behaviour-preserving, positions kept): sa/normalize.py
         _set_parents(tree)
         mod = Module(
             name=name,
